@@ -189,3 +189,31 @@ func Seed() uint64 {
 		}
 	}
 }
+
+// ---- deterministic, model-computable string hash (layout / sched modes) -------------------------
+
+// HashMode: 0 = well-mixed; 1 = constant (everything collides); 2 = MapOf h2 (low 7 bits) constant;
+// 3 = MapOf h1 constant (one bucket, distinct h2); 4 = Map top-hash (top 20 bits) constant.
+var HashMode int
+
+func HashString(s string, seed uint64) uint64 {
+	h := seed ^ 0xcbf29ce484222325
+	for i := 0; i < len(s); i++ {
+		h ^= uint64(s[i])
+		h *= 0x100000001b3
+	}
+	h ^= h >> 29
+	h *= 0xbf58476d1ce4e5b9
+	h ^= h >> 32
+	switch HashMode {
+	case 1:
+		return 0
+	case 2:
+		return h &^ 0x7f
+	case 3:
+		return h & 0x7f
+	case 4:
+		return h & (1<<44 - 1)
+	}
+	return h
+}
